@@ -366,11 +366,25 @@ let run_normalize dir phase uefile =
     let bs = List.map n_of_int (ints_of_line line) in
     if phase = "amps" then
       List.iter (fun w ->
-        if not (Hashtbl.mem seen w) then begin Hashtbl.add seen w (); pr_dot w; flush_line () end)
+        (* the raw token and the same token with its first rune lower-cased (what normalising mode and the
+           hypotheses of the C11 theorem hand to html.UnescapeString) *)
+        let lf = match w with [] -> [] | c :: r -> t.Tok.to_lower c :: r in
+        List.iter (fun w ->
+          if not (Hashtbl.mem seen w) then begin Hashtbl.add seen w (); pr_dot w; flush_line () end) [w; lf])
         (Tok.tokenize_whole t false bs).Tok.d_amps
     else begin
       List.iteri (fun i b -> if i > 0 then pr " "; pr "%d" (int_of_n b)) (Normalize.normalize t bs);
       flush_line () end)
+
+(* hypotheses of the theorem NormProof.C11_restricted, evaluated per input: "<flushes_ok> <canon_resid>" *)
+let run_normhyp dir uefile =
+  let t = load_tok_tables dir uefile in
+  iter_lines (fun line ->
+    let bs = List.map n_of_int (ints_of_line line) in
+    let rs = Utf8.decode_all bs in
+    let f = NormProof.flushes_ok t Tok.init_state rs in
+    let c = NormProof.canon_resid t (n_of_int 1) [] (Tok.tokenize_runes t false rs).Tok.d_toks in
+    pr "%d %d" (if f then 1 else 0) (if c then 1 else 0); flush_line ())
 
 let run_tokwf dir =
   let t = load_tok_tables dir "" in
@@ -450,6 +464,7 @@ let () =
   | [| _; "tok1"; dir; v |] -> run_tok1 dir (v = "fixed")
   | [| _; "ranges" |] -> run_ranges ()
   | [| _; "tokwf"; dir |] -> run_tokwf dir
+  | [| _; "normhyp"; dir; uefile |] -> run_normhyp dir uefile
   | [| _; "normalize"; dir; "amps" |] -> run_normalize dir "amps" ""
   | [| _; "normalize"; dir; "run"; uefile |] -> run_normalize dir "run" uefile
   | [| _; "match"; dir; tl |] ->
